@@ -610,3 +610,10 @@ def custom_fuzz(ctx):
 
 SUBS.append(FUZZ_CASE)
 SUBS.append(Sub("fuzz_readers", kind="custom", custom=custom_fuzz, n_quick=1, n_thorough=1, shards_quick=4, shards_thorough=16))
+
+
+# ---- files written by evo_traj (--save_as_tum / --save_as_kitti, with --ref) read by the independent parser ----------------
+from vf.checks import c15 as _c15
+SUBS.append(Sub("cli_export", _c15.sub_traj, _c15.make_st_case(
+    tf=st.none(), project=st.none(), downsample=st.none(), mf=st.none(), merge=st.just(False), align_mode=st.just("none"), correct_scale=st.just(False),
+    sync=st.just(False), toff=st.just(0.0)), 150, 4000, nontrivial=lambda c: c["ref"] is not None, shards_quick=2))
